@@ -11,8 +11,8 @@ import (
 	"fmt"
 	"math/big"
 	"math/rand"
-	"os"
-	"runtime/pprof"
+	"runtime"
+	"runtime/debug"
 	"sort"
 	"strconv"
 	"strings"
@@ -101,14 +101,14 @@ type env struct {
 
 	fEncode, fDecode, fIndent, fEncodeIndent starlark.Value
 	shrunk                                   map[string]int // per violation key: how many witnesses were minimised
+	valSamples                               int
 }
 
 func run(c *driver.Ctx) {
-	if pf := os.Getenv("C18_PROF"); pf != "" {
-		f, _ := os.Create(pf)
-		pprof.StartCPUProfile(f)
-		defer pprof.StopCPUProfile()
-	}
+	// One child per core: keep the Go runtime of this child from fanning GC work out over all cores,
+	// and let the heap grow to a few hundred MB between collections (the live heap is tiny).
+	runtime.GOMAXPROCS(2)
+	debug.SetGCPercent(400)
 	e := &env{c: c, th: &starlark.Thread{Name: "c18"}, shrunk: map[string]int{}}
 	e.fEncode = sjson.Module.Members["encode"]
 	e.fDecode = sjson.Module.Members["decode"]
@@ -230,6 +230,12 @@ func (e *env) askPy(docs []string) []pyRes {
 	return r
 }
 
+type preRes struct {
+	g goRes
+	s scanRes
+	r implRes
+}
+
 func (e *env) judgeBatch(cases []docCase) {
 	if len(cases) == 0 {
 		return
@@ -238,12 +244,19 @@ func (e *env) judgeBatch(cases []docCase) {
 	for i := range cases {
 		docs[i] = cases[i].doc
 	}
-	py := e.askPy(docs)
+	// python works on the batch while this process runs the references and the code under test
+	ch := make(chan []pyRes, 1)
+	go func() { ch <- e.askPy(docs) }()
+	pre := make([]preRes, len(cases))
+	for i, d := range docs {
+		pre[i] = preRes{g: goRef(d), s: scanDoc(d), r: e.decode(d, nil, false)}
+	}
+	py := <-ch
 	if py == nil {
 		return
 	}
 	for i := range cases {
-		e.judge(&cases[i], py[i])
+		e.judge(&cases[i], py[i], pre[i])
 	}
 }
 
@@ -267,11 +280,10 @@ func lenientDoc(doc string, g goRes, s scanRes) (bool, string) {
 	return false, ""
 }
 
-func (e *env) judge(dc *docCase, p pyRes) {
+func (e *env) judge(dc *docCase, p pyRes, pre preRes) {
 	c := e.c
 	doc := dc.doc
-	g := goRef(doc)
-	s := scanDoc(doc)
+	g, s := pre.g, pre.s
 	c.Eval(1)
 	c.Count("docs", 1)
 	if t := strings.Trim(doc, " \t\n\r"); t != "" && t != "null" && t != "true" && t != "false" {
@@ -331,7 +343,7 @@ func (e *env) judge(dc *docCase, p pyRes) {
 	}
 
 	// 3. json.decode
-	r := e.decode(doc, nil, false)
+	r := pre.r
 	if r.pan != nil {
 		c.Violation("C18 decode panic", fmt.Sprintf("json.decode(%s) panics: %v", driver.Truncate(goQuote(doc), 300), r.pan.Value),
 			map[string]any{"doc": goQuote(doc), "origin": dc.origin, "panic": r.pan.String(), "stack": driver.Truncate(r.pan.Stack, 3000)})
@@ -380,7 +392,7 @@ func (e *env) judge(dc *docCase, p pyRes) {
 			c.Count("docs_invalid_rejected", 1)
 		}
 	}
-	if c.WantSample() && c.Case()%7 == 3 {
+	if dc.val == nil && c.WantSample() && c.Case()%7 == 3 && len(doc) > 2 && len(doc) < 160 {
 		ref := "valid, denotes " + driver.Truncate(pretty(g.canon), 120)
 		if !g.valid {
 			ref = "invalid (" + s.class + ")"
@@ -580,6 +592,65 @@ func (e *env) minimise(doc, want string) string {
 		return e.sig(d) == want
 	}
 	cur := doc
+	// structural pass (valid documents): replace the document by one of its sub-values, or drop
+	// one element/member of a container, as long as the same judgement results
+	for progress := true; progress && calls < 4000; {
+		progress = false
+		valid, vals, elems := scanSpans(cur)
+		if !valid {
+			break
+		}
+		sort.SliceStable(vals, func(i, j int) bool { return vals[i][1]-vals[i][0] < vals[j][1]-vals[j][0] })
+		for _, v := range vals {
+			if v[1]-v[0] >= len(cur) {
+				continue
+			}
+			if ok(cur[v[0]:v[1]]) {
+				cur = cur[v[0]:v[1]]
+				progress = true
+				break
+			}
+		}
+		if progress {
+			continue
+		}
+		for k, el := range elems {
+			var cand string
+			switch {
+			case k+1 < len(elems) && elems[k+1][2] == el[2] && elems[k+1][0] > el[1]:
+				cand = cur[:el[0]] + cur[elems[k+1][0]:]
+			case k > 0 && elems[k-1][2] == el[2] && elems[k-1][1] < el[0]:
+				cand = cur[:elems[k-1][1]] + cur[el[1]:]
+			default:
+				// elements of one container are not adjacent in the list when containers nest; find neighbours by id
+				prev, next := -1, -1
+				for m := range elems {
+					if elems[m][2] != el[2] || m == k {
+						continue
+					}
+					if elems[m][1] <= el[0] && (prev < 0 || elems[m][1] > elems[prev][1]) {
+						prev = m
+					}
+					if elems[m][0] >= el[1] && (next < 0 || elems[m][0] < elems[next][0]) {
+						next = m
+					}
+				}
+				switch {
+				case next >= 0:
+					cand = cur[:el[0]] + cur[elems[next][0]:]
+				case prev >= 0:
+					cand = cur[:elems[prev][1]] + cur[el[1]:]
+				default:
+					cand = cur[:el[0]] + cur[el[1]:]
+				}
+			}
+			if ok(cand) {
+				cur = cand
+				progress = true
+				break
+			}
+		}
+	}
 	// substring pass
 	isBoundBefore := func(i int) bool { // a substring may start at i
 		return i == 0 || strings.IndexByte("[{,: \t\n\r", cur[i-1]) >= 0
@@ -904,15 +975,17 @@ func (e *env) runValues(vals []*mval, r *rand.Rand) {
 		}
 		if res.err != nil {
 			class := "other"
+			min := ""
 			if strings.Contains(res.err.Error(), "cycle") {
 				class = "false-cycle"
+				// confirm the three-line reproducer before quoting it
+				t := &mval{k: 'a', s: "alias-prefix", elems: []*mval{{k: 'i', i: big.NewInt(1)}}}
+				if _, r2 := e.encodeStar(t.star(map[*mval]starlark.Value{})); r2.err != nil {
+					min = "minimal: t = (1, []); t[1].append(t[:1]); json.encode(t) fails although t == (1, [(1,)]) is acyclic (a tuple and a slice of it share their backing array, which the cycle detector takes for identity). "
+				}
 			}
-			min := "value: " + driver.Truncate(vs, 200)
-			if class == "false-cycle" {
-				min = "t = (1, []); t[1].append(t[:1]); json.encode(t)  # a tuple and a slice of it share the backing array; the value (1, [(1,)]) is acyclic"
-			}
-			c.Violation("C18 encode error "+class, fmt.Sprintf("json.encode(%s) fails: %v; the value is JSON-representable as %s. %s",
-				driver.Truncate(vs, 300), res.err, driver.Truncate(pretty(expect), 200), min),
+			c.Violation("C18 encode error "+class, fmt.Sprintf("%sjson.encode(%s) fails: %s; the value is JSON-representable as %s",
+				min, driver.Truncate(vs, 200), driver.Truncate(res.err.Error(), 200), driver.Truncate(pretty(expect), 200)),
 				map[string]any{"value": vs, "error": res.err.Error(), "want_data": pretty(expect)})
 			continue
 		}
@@ -923,7 +996,8 @@ func (e *env) runValues(vals []*mval, r *rand.Rand) {
 		dc := docCase{doc: out, origin: "json.encode output", val: m, valStr: vs, expect: expect, defChoice: r.Intn(1 << 20)}
 		cases = append(cases, dc)
 
-		if c.WantSample() && c.Case()%5 == 1 && len(vs) > 8 {
+		if e.valSamples < 3 && c.WantSample() && c.Case()%5 == 1 && len(vs) > 8 && len(vs) < 160 {
+			e.valSamples++
 			c.Sample(map[string]any{"kind": "value", "value": driver.Truncate(vs, 200), "json.encode": driver.Truncate(out, 200)})
 		}
 		// encode_indent(x) == indent(encode(x)) and denotes the same data
@@ -986,7 +1060,7 @@ func (e *env) diagnoseEncode(m *mval) (class, repro string) {
 		if !g.valid {
 			return true
 		}
-		if !utf8.ValidString(x.s) {
+		if _, u := x.scanFlags(); !u {
 			return false
 		}
 		return g.canon != x.canonString()
@@ -1005,8 +1079,12 @@ func (e *env) diagnoseEncode(m *mval) (class, repro string) {
 		}
 		seen[x] = true
 		for _, k := range x.keys {
-			ks := &mval{k: 's', s: k}
-			if found == nil && bad(ks) {
+			// the same text as a plain string first: string quoting is shared by values, keys and field names
+			ps := &mval{k: 's', s: k}
+			ks := &mval{k: x.k, keys: []string{k}, elems: []*mval{{k: 'n'}}}
+			if found == nil && bad(ps) {
+				found = ps
+			} else if found == nil && bad(ks) {
 				found = ks
 			}
 		}
@@ -1037,6 +1115,15 @@ func (e *env) diagnoseEncode(m *mval) (class, repro string) {
 			}
 		}
 		return "string", show(found)
+	case 'd', 'o':
+		kind := map[byte]string{'d': "dict-key", 'o': "struct-field"}[found.k]
+		for _, rn := range found.keys[0] {
+			one := &mval{k: found.k, keys: []string{string(rn)}, elems: []*mval{{k: 'n'}}}
+			if bad(one) {
+				return kind + "-" + runeClass(rn), show(one)
+			}
+		}
+		return kind, show(found)
 	}
 	return "literal", show(found)
 }
